@@ -529,7 +529,7 @@ func init() {
 			"a worker runs one case at a time, so mutating the process environment / cwd / fd 0 inside a case is safe",
 			"the local time zone is varied by replacing time.Local (Go caches the zone per process; TZ/ZONEINFO themselves are ordinary environment variables of the generated states); the builtins the statement exempts (now, localtime, strflocaltime, strptime with %Z) are left out",
 			"strace -f sees every system call of every thread of the helper (checked per run by a control session with planted accesses)",
-			"callback behaviours copy their argument slice (the interpreter reuses it between calls)",
+			"callback behaviours other than pack/lazy copy their argument slice; pack and lazy keep the slice they were handed (D44)",
 		},
 		Body: func(c *run.Ctx) {
 			c19BodyAmbient(c)
